@@ -232,7 +232,7 @@ def goodDW : Good kDW where
   ainit _ := Log.new (fun _ => none) []
   astep := wrAStep
   Ref := WRef
-  Fresh _ := True
+  Fresh _ := True                            -- not an object-pool type: `Obj = Unit`
   zero_fresh _ := trivial
   init_ref _ _ _ := wref_init
   step_ref d s x o h := wr_step_ref d s x o h
@@ -243,14 +243,14 @@ def goodBW : Good kBW where
   ainit _ := Log.new (fun _ => none) []
   astep := wrAStep
   Ref s l := ∃ w, s.w = some w ∧ WRef w l
-  Fresh _ := True
-  zero_fresh _ := trivial
+  Fresh o := o.w = none                      -- a BufferWriter at rest holds no writer (its only field)
+  zero_fresh _ := rfl
   init_ref _ _ _ := ⟨_, rfl, wref_init⟩
   step_ref d s x o h := by
     obtain ⟨w, hw, hr⟩ := h
     have := wr_step_ref d w x o hr
     simp only [kBW, hw]
     exact ⟨⟨_, rfl, this.1⟩, this.2⟩
-  release_fresh _ _ _ := trivial
+  release_fresh _ _ _ := rfl
 
 end Verif.Pools
